@@ -519,6 +519,26 @@ gproof! { fn c08_arc_make_mut__a64_write_isolated() {
     core::mem::forget(a);
 } }
 
+// @h props=C08 fuc=Arc::make_mut note="payload without drop glue but with an observable Clone: the copy must be made with Clone, exactly once, and only when shared"
+gproof! { fn c08_arc_make_mut__nodrop_clone_counted() {
+    let n = any_count();
+    let v: u32 = kani::any();
+    let mut a = mk(vrt::Cc(v), n);
+    let r = Arc::make_mut(&mut a);
+    assert!(r.0 == v);
+    assert!(vrt::clones() == if n == 1 { 0 } else { 1 });
+    core::mem::forget(a);
+} }
+
+// @h props=C08,C09 fuc=Arc::unwrap_or_clone note="payload without drop glue: cloned exactly once iff shared"
+gproof! { fn c09_arc_unwrap_or_clone__nodrop_clone_counted() {
+    let n = any_count();
+    let v: u32 = kani::any();
+    let a = mk(vrt::Cc(v), n);
+    let r = Arc::unwrap_or_clone(a);
+    assert!(r.0 == v && vrt::clones() == if n == 1 { 0 } else { 1 });
+} }
+
 // @h props=C08,C03 fuc=Arc::make_unique,UniqueArc::from_arc_ref
 gproof! { fn c08_arc_make_unique__tr8() {
     let n = any_count();
@@ -580,6 +600,40 @@ gproof! { fn c09_arc_try_unwrap__a64() {
         Ok(v) => { assert!(n == 1 && v == val && vrt::gd(1) && !vrt::g_live(b0)); }
         Err(a2) => { assert!(n != 1 && base(&a2) == b0 && cnt(&a2) == n && *a2 == val && vrt::gd(0)); core::mem::forget(a2); }
     }
+} }
+
+// @h props=C09,C05 fuc=Arc::try_unwrap,UniqueArc::into_inner note="zero-sized payload: the value comes out (destructor not run) and the 8-byte block is still released"
+gproof! { fn c09_arc_try_unwrap__zst_with_drop() {
+    let n = any_count();
+    let a = mk(Zd, n);
+    let (b0, c0) = (base(&a), cw(&a));
+    match Arc::try_unwrap(a) {
+        Ok(v) => { assert!(n == 1 && unsafe { vrt::ZDROPS } == 0 && vrt::gd(1) && !vrt::g_live(b0)); drop(v); assert!(unsafe { vrt::ZDROPS } == 1); }
+        Err(a2) => { assert!(n != 1 && base(&a2) == b0 && cnt(&a2) == n && unsafe { vrt::ZDROPS } == 0 && vrt::gd(0)); core::mem::forget(a2); }
+    }
+    kani::cover!(n == 1, "moved out");
+} }
+
+/// payload whose Clone releases a parked co-owner: "the other owner goes away while we are cloning"
+pub(crate) struct Pk { pub t: Tr8, pub park: *mut Option<Arc<Pk>> }
+impl Clone for Pk {
+    fn clone(&self) -> Pk {
+        unsafe { if let Some(o) = (*self.park).take() { drop(o); } }
+        Pk { t: self.t.clone(), park: core::ptr::null_mut() }
+    }
+}
+
+// @h props=C09,C01 fuc=Arc::unwrap_or_clone,Arc::try_unwrap,Arc::drop note="history: the only other owner is released while Clone runs -> our release is the last one and must destroy the value (handed out once or kept, never neither)"
+gproof! { fn c09_arc_unwrap_or_clone__co_owner_released_during_clone() {
+    let mut slot: Option<Arc<Pk>> = None;
+    let a = Arc::new(Pk { t: Tr8::new(), park: &mut slot as *mut _ });
+    let id = a.t.id;
+    slot = Some(a.clone());
+    let r = Arc::unwrap_or_clone(a);
+    // the caller got a clone; the original has no owner left: destroyed exactly once, block returned
+    assert!(r.t.id != id && vrt::clones() == 1 && slot.is_none());
+    assert!(vrt::dropped(id) && vrt::drops() == 1 && vrt::gd(1) && vrt::glive(0));
+    core::mem::forget(r);
 } }
 
 // @h props=C09,C05 fuc=UniqueArc::into_inner
